@@ -30,8 +30,10 @@ func c10(r *core.Run) {
 	r.Rule("T1", "default symmetry: in the change handler the configured default replaces a nil before/after value both when a transformer is set and when it is not (the get handler serves the default for a missing value in both cases)", 2)
 	r.Rule("T2", "transform symmetry: the get handler passes the stored value through Transformer.Transform when a transformer is set, and the change handler does so for the before and for the after value", 3)
 	r.Rule("S1", "event selection: CreateEvent is invoked only on the before==nil edge with the after representation, DeleteEvent only on the after==nil edge (before non-nil); the resource id is IDToRID of the after, else the before representation", 3)
+	r.Rule("B1", "before-values are what get served (shared with C11.K2): the value a badgerstore write transaction caches is dead or refreshed by every mutation; the change handler diffs the reported before-value, so a stale one yields events relative to a state the client no longer holds", 1)
 	r.Rule("D1", "model diff: the delete action is stored exactly on the not-present edge of the lookup in the new map, a key is reported only where it is new or Value.Equal is false, and the resulting map is what ChangeEvent receives", 3)
 
+	c11CacheCoherence(r, "B1", "store/badgerstore")
 	transF, ok1 := fieldByType(p, rel, "storeHandler", func(t types.Type) bool { return core.TypeName(t) == qual(rel, "Transformer") })
 	defF, ok2 := fieldByType(p, rel, "storeHandler", func(t types.Type) bool { return types.TypeString(t, nil) == "encoding/json.RawMessage" || types.TypeString(t, nil) == "interface{}" })
 	if !ok1 || !ok2 {
@@ -264,6 +266,41 @@ func c10(r *core.Run) {
 	r.Check(ok, "T2", core.FuncName(chg), "change-transforms-before", posOf(p, at), "the before value is transformed like the served value", "the change handler diffs the untransformed before value against what get serves")
 	ok, at = hasTransform(chg, after)
 	r.Check(ok, "T2", core.FuncName(chg), "change-transforms-after", posOf(p, at), "the after value is transformed like the served value", "the change handler diffs the untransformed after value against what get serves")
+
+	// the default is served as it is: it must never be fed to Transform (get serves it untransformed)
+	{
+		var derivesFromDef func(v ssa.Value, d int) bool
+		derivesFromDef = func(v ssa.Value, d int) bool {
+			if d > 8 || v == nil {
+				return false
+			}
+			if isDefLoad(v) {
+				return true
+			}
+			if phi, ok := core.Strip(v).(*ssa.Phi); ok {
+				for _, e := range phi.Edges {
+					if e != v && derivesFromDef(e, d+1) {
+						return true
+					}
+				}
+			}
+			return false
+		}
+		for _, fn := range []*ssa.Function{get, chg} {
+			for _, c := range core.Calls(fn) {
+				if !c.Common().IsInvoke() || c.Common().Method.Name() != "Transform" {
+					continue
+				}
+				bad := false
+				for _, a := range c.Common().Args {
+					if derivesFromDef(a, 0) {
+						bad = true
+					}
+				}
+				r.Check(!bad, "T2", core.FuncName(fn), "default-is-not-transformed", p.InstrPos(c), "only stored values are transformed; the default is served and diffed as configured", "the configured default can be passed through Transformer.Transform here, while the get handler serves it untransformed: the change is computed against Transform(default) - or, when the transformer rejects it, the value is treated as missing and a create / delete is sent for a resource the client holds")
+			}
+		}
+	}
 
 	// ---- D1 ----------------------------------------------------------------
 	md := p.Func(rel + ".modelDiff")
